@@ -76,6 +76,38 @@ def check(rep, tier, seed):
             data = [str(rng.randrange(8, 16) * 2**1020) if 2 * sm_ == T else str(rng.randrange(0, 50)) for sm_ in index_sums(sh)]
             cases.append("fold %s %s %s" % (fmt(sh), fmt(data), rng.choice(FILLS)))
 
+    # entries that are NaN or infinite: a kept cell is x + mirror (resp. the average) in IEEE arithmetic - NaN where the
+    # input says so (also inf + -inf) - and only the cells above the diagonal get the fill value, whatever the fill is
+    import math
+    nf = []
+    for sh in ([4], [5], [6], [3, 3], [3, 4], [2, 3, 2], [2, 2, 2, 1]):
+        for _ in range(3):
+            vals = [float(rng.randrange(0, 40)) for _ in range(elements(sh))]
+            for k_ in rng.sample(range(len(vals)), min(3, len(vals))):
+                vals[k_] = rng.choice([math.nan, math.inf, -math.inf])
+            if rng.random() < 0.5:                      # inf mirrored by -inf
+                vals[0], vals[-1] = math.inf, -math.inf
+            for f in FILLS:
+                nf.append((sh, vals, f))
+    tokf = lambda v: "inf" if v == math.inf else "-inf" if v == -math.inf else "nan" if v != v else str(int(v))
+    nfo = run_impl(["fold %s %s %s" % (fmt(sh), ",".join(tokf(v) for v in vals), f) for sh, vals, f in nf])
+    fillv = {"nan": math.nan, "zero": 0.0, "minus-one": -1.0, "inf": math.inf}
+    for (sh, vals, f), o in zip(nf, nfo):
+        rep.count("fold-nonfinite", "%s fill %s" % (fmt(sh), f), True)
+        idxs = list(itertools.product(*[range(n) for n in sh]))
+        T = sum(sh) - len(sh)
+        want = []
+        for i_, idx in enumerate(idxs):
+            s2 = 2 * sum(idx)
+            m_ = vals[len(vals) - 1 - i_]
+            want.append(vals[i_] + m_ if s2 < T else (0.5 * vals[i_] + 0.5 * m_ if s2 == T else fillv[f]))
+        t = o.split()
+        got = [float(parse_value(x)) for x in t[1].split(",")] if len(t) >= 2 else None
+        if got is None or len(got) != len(want) or not all((g != g and w != w) or g == w for g, w in zip(got, want)):
+            rep.fail(kind="property-oracle", cls="fold:nonfinite", case="fold %s %s %s" % (fmt(sh), ",".join(tokf(v) for v in vals), f), observed=o[:300],
+                     expected=",".join(tokf(w) if (w != w or abs(w) == math.inf or w == int(w)) else repr(w) for w in want)[:300],
+                     detail="folding a spectrum with NaN / infinite entries: kept cells follow IEEE arithmetic, only cells above the diagonal take the fill value")
+
     def nontrivial(c, m):
         toks = m.split()[1].split(",") if len(m.split()) > 1 else []
         return len(set(toks)) > 1
